@@ -1,0 +1,20 @@
+//go:build !verif
+
+// Package simhook holds the seams used by the deterministic simulation harness.
+// Without the `verif` build tag every function here is a constant no-op that the
+// compiler inlines away, so shipped behavior is unchanged.
+package simhook
+
+import "context"
+
+// NoCache reports whether memoization must be bypassed (never, in regular builds).
+func NoCache() bool { return false }
+
+// WrapContext returns the evaluation context to use (unchanged, in regular builds).
+func WrapContext(ctx context.Context) context.Context { return ctx }
+
+// FreeMemory lets a simulator answer object.FreeMemory (never, in regular builds).
+func FreeMemory() (int64, bool) { return 0, false }
+
+// Point marks a named step a simulator can stop the process at (no-op in regular builds).
+func Point(string) {}
